@@ -197,13 +197,15 @@ def install_probes():
     orig_process = cl._ControlLoopRunner._process_tick
 
     async def process_probe(self, tick):
-        res = await orig_process(self, tick)
-        tr = _CUR["trace"]
-        if tr is not None:
-            hook = tr.extra.get("after_tick")
-            if hook is not None:
-                hook(self, tick)
-        return res
+        try:
+            return await orig_process(self, tick)
+        finally:
+            # also after terminal ticks (CommandFailWorkflow / CommandHalt raise out of _process_tick)
+            tr = _CUR["trace"]
+            if tr is not None:
+                hook = tr.extra.get("after_tick")
+                if hook is not None:
+                    hook(self, tick)
 
     cl._ControlLoopRunner._process_tick = process_probe
 
